@@ -64,9 +64,12 @@ package xar
 //@   ensures @one_replacement ret2 == nil ==> adds == 1
 //@
 //@ func Open
-//@   property C11
+//@   property C11 C02
 //@   nopanic
 //@   requires r != nil
+//@   ghost sumOK bool = false
+//@   on call crypto/hmac.Equal(a, b) ret (ok): sumOK = ok && sameslice(a, checkHash) && sameslice(b, tocHash)
+//@   ensures @stored_checksum_of_the_table_of_contents_compared_with_the_recomputed_one ret1 == nil ==> sumOK && ret0 != nil && sameslice(ret0.TOCHash, tocHash)
 //@   allocbound 0 64
 //@   allocbound 1 1000000
 //@
